@@ -45,6 +45,9 @@ def build_msg(c):
         if str(t) in ("8", "9", "10", "35"):
             continue
         try:
+            if isinstance(v, list):
+                m.set_group(t, v)
+                continue
             m.set(t, v)
         except Exception:
             pass
@@ -62,10 +65,37 @@ BATTERY = [
     {"type": "4", "tags": [["34", "3"], ["123", "Y"], ["36", "9"]]},
     {"type": "D", "tags": [["58", "a" * 300]], "nout": 12345},
     {"type": "D", "tags": [["58", "ЮН €"]]},
+    {"type": "D", "tags": [["58", "settle 100 € – see T&C’s"]]},
+    {"type": "D", "tags": [["58", "café Müller"]]},
+    {"type": "D", "tags": [["11", "x"], ["453", [{"448": "Müller AG", "447": "D", "452": "3"}]]]},
+    {"type": "D", "tags": [["11", "x"], ["453", [{"448": "PARTY", "447": "D", "452": "3"}, {"448": "P2", "447": "D", "452": "1"}]]]},
+    {"type": "D", "tags": [["11", "x"]], "target": "TÄRGET"},
+    {"type": "Ü", "tags": [["11", "x"]]},
 ]
 
 
+def sweep(params):
+    """bounded stand-in (only when the deductive check is undecided): the battery through encode and through send_msg."""
+    viol = []
+    n = 0
+    for op in ("encode", "send"):
+        for b in BATTERY:
+            if op == "encode" and not all(ord(ch) < 128 for ch in repr(b)):
+                # the encoder alone with non-ASCII text is known finding C02-KF1 (character-counting), not searched here
+                if any(ord(ch) >= 128 for t, v in b.get("tags", []) for ch in (str(v))) or any(
+                        ord(ch) >= 128 for ch in b.get("sender", "") + b.get("target", "") + b.get("type", "")):
+                    continue
+            case = dict(b, op=op, st=17 if b["type"] != "A" else 6)
+            o = run(case)
+            n += 1
+            if o["violated"]:
+                viol.append({"case": case, "observed": o, "clauses": o["violated"], "replay_family": "c02"})
+    return {"cases": n, "violations": viol[:10], "samples": [{"case": dict(BATTERY[0], op="send")}]}
+
+
 def run(c):
+    if c.get("op") is None and "seed" in c:
+        return sweep(c)
     if c.get("op") in ("battery_encode", "battery_send"):
         # search for a concrete failing input: a fixed battery of messages through the real code
         op = "encode" if c["op"] == "battery_encode" else "send"
